@@ -7,7 +7,8 @@
               SetMax(v): counter <= v => counter = v + 1.   A fresh object starts at 1.
    etcd       shared register etcd (first unallocated id) changed only by compare-and-swap;
               per master window [cur[m], max[m]).  NextFileId(n): if cur+n >= max then
-              refill: Get prev; CAS(prev -> prev+req) (retry on conflict); window = [prev, prev+req);
+              refill: Get prev; CAS(prev -> prev+req) (on conflict read again and retry; RefillCas = FALSE:
+              a blind write instead of the CAS); window = [prev, prev+req);
               then return cur, cur += n.   SetMax(v) (SetMaxShape):
                 "old"   v > max:  Get prev; prev >= v => cur=max=prev, else CAS(prev -> v) and cur=max=v
                 "fixed" cur <= v < max => cur = v+1;  v >= max: the same with v+1
@@ -27,7 +28,7 @@
    known findings KFm admitted).  Histories (inputs only) are logged in hist in
    the script format of harness/cmd/c13. *)
 EXTENDS KeyAlloc
-CONSTANTS Kind, Counts, Steps, Pre, SetMaxShape, CasRetry, Split, KFm, MaxTicks, WithVids, Fresh, GDepth
+CONSTANTS Kind, Counts, Steps, Pre, SetMaxShape, CasRetry, RefillCas, Split, KFm, MaxTicks, WithVids, Fresh, GDepth
 VARIABLES etcd, cur, max, mem, now, last, sq, leader, fly, asgs, maxvid, bad
 ivars == <<etcd, cur, max, mem, now, last, sq, leader, fly, asgs, maxvid, bad>>
 bvars == <<vars, ivars>>
@@ -143,19 +144,30 @@ BBeginHb(m, vol) ==
   /\ fly' = [fly EXCEPT ![m] = [op |-> "hb", vol |-> vol, n |-> MaxUsed(vol), prev |-> etcd]]
   /\ Log([ev |-> "call", p |-> Ord[m], op |-> "hb", m |-> m, vol |-> vol, n |-> [c |-> 0, s |-> 0], v |-> 0, gate |-> TRUE])
   /\ UNCHANGED <<avars, etcd, cur, max, mem, now, last, sq, leader, asgs, maxvid, bad>>
+(* End: the parked operation continues with its write.
+   refill (NextFileId -> batchGetSequenceFromEtcd): RefillCas = TRUE is the code: Set(PrevValue = the value
+   read) - if the register moved, the write fails and the loop reads again (BRetry: a new Get, parked
+   again, so further operations of other masters may interleave); RefillCas = FALSE is a plausible
+   breakage (a write that is not a compare-and-swap): the stale value is used. *)
 BEnd(m) ==
   /\ fly[m] # None
+  /\ (fly[m].op = "next" /\ RefillCas) => fly[m].prev = etcd
   /\ fly' = [fly EXCEPT ![m] = None]
   /\ IF fly[m].op = "next"
-     THEN \* a failed CAS makes the code read the register again: the retry runs to completion here
-          /\ EtcdNextAt(m, fly[m].vol, fly[m].n, etcd)
+     THEN /\ EtcdNextAt(m, fly[m].vol, fly[m].n, fly[m].prev)
           /\ UNCHANGED <<kind, inuse, reg, gen, smax, vgiven, vreg, pend>>
      ELSE /\ LET prev == IF CasRetry THEN etcd ELSE fly[m].prev    \* CasRetry: a failed CAS reads the register again
              IN EtcdSetMaxAt(m, fly[m].n, prev, prev = etcd)
           /\ HbEff(m, fly[m].vol, fly[m].n)
           /\ UNCHANGED <<kind, given, inuse, gen, vgiven, vreg, pend, asgs, bad>>
-  /\ Log([ev |-> "release", p |-> Ord[m]])
+  /\ Log([ev |-> "release", p |-> Ord[m], again |-> FALSE])
   /\ UNCHANGED <<mem, now, last, sq, leader, maxvid>>
+(* the compare-and-swap of a refill fails: read the register again and park before the next attempt *)
+BRetry(m) ==
+  /\ fly[m] # None /\ fly[m].op = "next" /\ RefillCas /\ fly[m].prev # etcd
+  /\ fly' = [fly EXCEPT ![m].prev = etcd]
+  /\ Log([ev |-> "release", p |-> Ord[m], again |-> TRUE])
+  /\ UNCHANGED <<avars, etcd, cur, max, mem, now, last, sq, leader, asgs, maxvid, bad>>
 
 (* ---------------- volume ids: topology.NextVolumeId through raft ---------------- *)
 BNextVid(m) ==
@@ -182,6 +194,7 @@ BNext ==
      \/ \E m \in Masters, vol \in Vols, n \in Counts : BBeginNext(m, vol, n)
      \/ \E m \in Masters, vol \in Vols : BBeginHb(m, vol)
      \/ \E m \in Masters : BEnd(m)
+     \/ \E m \in Masters : BRetry(m)
      \/ \E m \in Masters : BNextVid(m)
      \/ \E m \in Masters, id \in {1, 3} : BVolReg(m, id)
 BSpec == BInit /\ [][BNext]_bvars
